@@ -23,7 +23,54 @@ def main():
     if len(sigs) < 3:
         print("path signatures not distinguishing branches", sigs)
         return 2
-    print("selftest ok: sxvm conforms, %d path signatures" % len(sigs))
+    # exact domain: a division by zero in an unselected branch must not poison the result, in a selected one it must
+    g = ca.Function("g", [x], [ca.if_else(x[0] > 0, x[1] / x[0], 7)])
+    pg = sxvm.compile_fn(g)
+    from fractions import Fraction as Fr
+    o, _ = sxvm.run(pg, [[Fr(0), Fr(3)]], sxvm.FRACTION)
+    if o[0][0] != 7:
+        print("exact domain: unselected division by zero leaked", o)
+        return 2
+    h = ca.Function("h", [x], [x[1] / x[0]])
+    o, _ = sxvm.run(sxvm.compile_fn(h), [[Fr(0), Fr(3)]], sxvm.FRACTION)
+    if o[0][0] is not sxvm.POISON:
+        print("exact domain: selected division by zero not flagged", o)
+        return 2
+    # signature-flip bisection finds a threshold of a toy program to adjacent doubles
+    from . import harvest
+    import math
+    t = ca.Function("t", [x], [ca.if_else(x[0] * x[0] < 1e-3, 1, 2)])
+    pairs = harvest.walk(sxvm.compile_fn(t), lambda v: [[v, 0.0]], [0.0, 1e-3, 0.1, 1.0])
+    if len(pairs) != 1 or not (pairs[0][0] ** 2 < 1e-3 <= pairs[0][1] ** 2) or pairs[0][1] != math.nextafter(pairs[0][0], 2.0):
+        print("harvest: boundary not bracketed by adjacent doubles", pairs)
+        return 2
+    # schedule explorer: 3 events tied at one instant -> 1 FIFO schedule + (3-1) + (2-1) single deviations; a toy bus that drops a
+    # message under a non-FIFO order must be reported, the correct toy must stay silent
+    from . import sched
+    import simpy
+
+    def toy(chooser, buggy):
+        sched.ControlledCore.chooser = chooser
+        c = sched.ControlledCore()
+        log = []
+
+        def proc(name):
+            yield simpy.Timeout(c, 1)
+            if buggy and name == "b" and log and log[-1] == "c":
+                return  # wrong: loses b when c fired first
+            log.append(name)
+        for n in "abc":
+            simpy.Process(c, proc(n))
+        c.run(until=2)
+        sched.ControlledCore.chooser = None
+        return sorted(log)
+    for buggy, want_fail in ((False, False), (True, True)):
+        runs = list(sched.explore(lambda ch: toy(ch, buggy), 1))
+        bad = [r for r in runs if r[2] != ["a", "b", "c"]]
+        if bool(bad) != want_fail or len(runs) < 4:
+            print("sched explorer selftest failed: buggy=%s runs=%d bad=%d" % (buggy, len(runs), len(bad)))
+            return 2
+    print("selftest ok: sxvm conforms (%d path signatures), exact-domain poison, boundary harvesting, schedule explorer" % len(sigs))
     return 0
 
 
